@@ -110,7 +110,7 @@ func (r *replayer) taskPendingQuiet() bool {
 // redo repeats the user operation of the step that was interrupted, if its effect is not persisted.
 func (r *replayer) redo(t *rapid.T, s hstep) {
 	switch s.Kind {
-	case "import":
+	case "import", "importJSON":
 		r.step(t, s) // state-based already: imports only if the wallet is not listed
 	case "remove":
 		r.step(t, s) // state-based already: asks again only if listed and not being removed
